@@ -424,3 +424,17 @@ Proof.
   all: cbv [SESSION_OP_NONE] in *.
   all: clear Hres; fin.
 Qed.
+
+(* ---- SoftHSM::isMechanismPermitted, translated to the end: true only if std::find over the configured list does not
+   return end(), and CKA_ALLOWED_MECHANISMS is empty or contains the mechanism ---------------------------------------- *)
+Theorem isMechanismPermitted_spec (e : isMechanismPermitted.env) :
+  isMechanismPermitted.app e = true ->
+  isMechanismPermitted.find e (isMechanismPermitted.mechs_begin e) (isMechanismPermitted.mechs_end e) (isMechanismPermitted.pMechanism_mechanism e)
+    <> isMechanismPermitted.mechs_end e /\
+  (isMechanismPermitted.allowed_empty e <> 0 \/
+   isMechanismPermitted.allowed_find e (isMechanismPermitted.pMechanism_mechanism e) <> isMechanismPermitted.allowed_end e).
+Proof.
+  destruct e. isMechanismPermitted.open_env.
+  repeat match goal with |- (if ?c then _ else _) = _ -> _ => destruct c eqn:? end; intros Hres; try discriminate Hres; norm.
+  all: split; [assumption|]; try (left; assumption); try (right; assumption).
+Qed.
